@@ -13,7 +13,18 @@ from ..report import Ctx
 FIELDS = ('function', 'gradient', 'hessian', 'bhhh')
 
 
+#: obligations whose failure contradicts the property (rule, construct pattern, why); every other failure is 'not recognised'
+POSITIVE: list[tuple[str, str, str]] = [
+    ('C02.R3', r':record$', 'the record template interpreted from get_signature is not the one the engine parses for this tag'),
+    ('C02.R3', r'\.get_signature$', 'an id written in the record belongs to a node whose signature is not emitted before it'),
+    ('C02.R3', r':appearance-order$', 'a positional sequence follows the insertion order of a dictionary of parameters'),
+    ('C02.R3', r'_betas\.expressions\[', 'a per-parameter vector is indexed by names of another kind / another order'),
+    ('C02.R2', r'.', 'flag forwarding: a flag parameter lands, through a resolved call, in a differently named flag parameter of the callee'),
+]
+
+
 def run(ctx: Ctx) -> None:
+    ctx.positive_table = list(POSITIVE)
     prog = ctx.prog
     ctx.rule('C02.R1', 'result slots: what the engine returns as (f, g, h, b) lands in the fields function / gradient / hessian / bhhh (aggregate: element 0 of '
              'the same array), each gated by its own flag; legacy tuple unpacking yields the same order; every named output field is built from the same-named '
@@ -74,17 +85,21 @@ def run(ctx: Ctx) -> None:
     for call in [c for c in walk_no_nested(f.node) if isinstance(c, ast.Call) and call_name(c) == 'BiogemeFunctionOutput']:
         kws = named_args(call)
         divs = set()
+        extracted = 0
         for i, fld in enumerate(FIELDS):
             got = kws.get(fld, '')
             m = re.fullmatch(rf'(?:np\.asarray\()?{re.escape(rawb[i])}\)?(?: / (\w+))?', got)
             ok = m is not None
+            extracted += ok
             if m and m.group(1):
                 divs.add(m.group(1))
             ctx.add('C02.R1', f'BIOGEME.calculate_likelihood_and_derivatives:{fld}@{"scaled" if "/" in got else "raw"}', ok, (f.file, call.lineno),
                     f'{fld} = {got}' + ('' if ok else f'; expected the engine slot {rawb[i]}'), f'{fld}={got}')
         if divs:
-            ctx.add('C02.R1', 'BIOGEME.calculate_likelihood_and_derivatives:one-divisor', len(divs) == 1 and all('/' in kws.get(x, '') for x in FIELDS), (f.file, call.lineno),
-                    f'all four components are divided by the same {sorted(divs)}' if len(divs) == 1 and all('/' in kws.get(x, '') for x in FIELDS) else f'components scaled inconsistently: {kws}', str(sorted(kws.items())))
+            same = len(divs) == 1 and all('/' in kws.get(x, '') for x in FIELDS)
+            ctx.add('C02.R1', 'BIOGEME.calculate_likelihood_and_derivatives:one-divisor', same if (same or extracted == 4) else None, (f.file, call.lineno),
+                    f'all four components are divided by the same {sorted(divs)}' if same else (f'components scaled inconsistently: {kws}' if extracted == 4 else 'the scaled components are not in the expected form (engine slot / divisor)'),
+                    str(sorted(kws.items())), positive=extracted == 4 and not same)
     # legacy unpacking order
     fo = prog.module('function_output')
     for cname, suffix in (('BiogemeFunctionOutputSmartOutputProxy', ''), ('BiogemeDisaggregateFunctionOutputSmartOutputProxy', 's')):
@@ -115,7 +130,9 @@ def run(ctx: Ctx) -> None:
             alltext = ' '.join(unparse(a.value) for a in st)
             refs = sorted({m for m in re.findall(r'function_output\.(\w+)', alltext + ' ' + guards)})
             ok = refs == [key]
-            ctx.add('C02.R1', f'{cname}.{key}', ok, (init.file, st[0].lineno), f'self.{key} is built from function_output.{key}' if ok else f'self.{key} is built from function_output.{refs}', f'{key}<-{refs}')
+            foreign = sorted(set(refs) - {key})
+            ctx.add('C02.R1', f'{cname}.{key}', ok if (ok or foreign) else None, (init.file, st[0].lineno), f'self.{key} is built from function_output.{key}' if ok else
+                    (f'self.{key} is built from function_output.{foreign[0]}: the named {key} are those of another field' if foreign else f'self.{key}: its source in function_output is not in the expected form'), f'{key}<-{refs}', positive=bool(foreign))
             # rows and columns use the same mapping
             if fld in ('hessian', 'bhhh'):
                 allmaps = set(re.findall(r',\s*(mapping|\w+)\s*\)', alltext.replace('\n', ' ')))
